@@ -17,6 +17,7 @@ import re
 import shutil
 import subprocess
 import sys
+import tempfile
 import time
 
 VERIF = os.path.dirname(os.path.dirname(os.path.abspath(__file__)))
@@ -331,13 +332,19 @@ def _run_lines(exe, lines, timeout, label, extra_env=None):
         # (thorough-tier shards hold thousands of lines and the machine may be busy)
         eff_timeout = timeout + 0.03 * len(chunk) + len(data) / 200000.0
         try:
-            p = subprocess.run([exe], input=data, stdout=subprocess.PIPE, stderr=subprocess.DEVNULL, timeout=eff_timeout, env=e)
+            with tempfile.TemporaryFile() as errf:
+                p = subprocess.run([exe], input=data, stdout=subprocess.PIPE, stderr=errf, timeout=eff_timeout, env=e)
+                errf.seek(max(0, errf.tell() - 4000))
+                errtail = errf.read().decode("utf-8", "replace")
             text = p.stdout.decode("utf-8", "replace")
             outs = text.splitlines()
             if text and not text.endswith("\n"):
                 outs = outs[:-1]      # a partial last line of a process that died
             status = "ABORT" if p.returncode != 0 else "MISSING"
             sig = f"{status}({p.returncode})"
+            if p.returncode != 0 and "memory allocation of" in errtail and "bytes failed" in errtail:
+                # the allocator refused a request: "more memory than the machine has"
+                sig = "ABORT(alloc-failed)"
         except subprocess.TimeoutExpired as te:
             text = (te.stdout or b"").decode("utf-8", "replace")
             outs = text.splitlines()
@@ -642,8 +649,8 @@ def _run_check(ctx, mod, replay):
             ok = True
         if ok and extra_judge is not None and extra_judge(c) is False:
             ok = False
-        if (not ok and c.spec == "nopanic" and c.impl == "PANIC" and (c.extra or {}).get("panic", "").strip().startswith("capacity overflow")
-                and getattr(mod, "MEMORY_EXCLUSION_IN_UNCONSTRAINED", True)):
+        if (not ok and c.spec == "nopanic" and getattr(mod, "MEMORY_EXCLUSION_IN_UNCONSTRAINED", True)
+                and ((c.impl == "PANIC" and (c.extra or {}).get("panic", "").strip().startswith("capacity overflow")) or c.impl == "ABORT(alloc-failed)")):
             # C08's statement excludes "requests for more memory than the machine has".  Where the oracle
             # computes the request it says so itself (verdict `any`); in a program it leaves unconstrained
             # (verdict `nopanic`) the size of the request is not known to it, and Rust's "capacity overflow"
@@ -656,7 +663,10 @@ def _run_check(ctx, mod, replay):
                 known_hits.setdefault(key, []).append(c)
             else:
                 oracle_fail.append(c)
-        if c.model != c.impl and not model_skip(c) and not c.model.startswith("MODEL-SKIP"):
+        # the model marks a request beyond 16 MiB with its `capacity overflow` guard; the real allocator either
+        # panics with that message or refuses the request (abort): the same excluded event
+        mem_same = c.impl == "ABORT(alloc-failed)" and c.model.startswith("PANIC")
+        if c.model != c.impl and not mem_same and not model_skip(c) and not c.model.startswith("MODEL-SKIP"):
             key = classify(c) if ok is False else None
             disagreements.append(c)
         if nontrivial(c):
